@@ -2,12 +2,16 @@
 //!   drv-service seq    --pat ps|ev|rr|bb --root DIR --runs N --len L --nodes K --out trace.ndjson
 //!   drv-service conc   --pat P --root DIR --threads T --iters I --runs N [--procs] --out trace.ndjson
 //!   drv-service matrix --pat P --root DIR --pairs pairs.ndjson --out results.ndjson
+//!   drv-service fault  --pat P --root DIR [--sample K] [--errnos 0,24] --out trace.ndjson   (under the sysshim)
+//!   drv-service victim | opener ...                                                      (crashed creator, see crash.rs)
 //! All iceoryx2 objects live in isolated domains (own global.prefix and root path below DIR).
 
 extern crate iceoryx2_bb_loggers;
 
 mod cfgs;
 mod conc;
+mod crash;
+mod fault;
 mod matrix;
 mod ops;
 mod pats;
@@ -39,6 +43,15 @@ fn main() {
         Some("conc") => by_pat!(pat, conc, run, &args),
         Some("sched") => by_pat!(pat, schedmode, run, &args),
         Some("steps") => by_pat!(pat, steps, run, &args),
+        Some("fault") => by_pat!(pat, fault, run, &args),
+        Some("victim") => {
+            by_pat!(pat, crash, victim, &args);
+            return;
+        }
+        Some("opener") => {
+            by_pat!(pat, crash, opener, &args);
+            return;
+        }
         Some("matrix") => by_pat!(pat, matrix, run, &args),
         Some("defaults") => {
             let c = util::make_config(&args.get_or("root", "/tmp/c06-defaults"), "c6d_", 1000);
